@@ -447,6 +447,8 @@ class Report:
         wall = time.time() - self.t0
         for k in self.known_seen:
             print("KNOWN-FINDING: property=%s %s" % (self.prop, k))
+        if not self.samples and self.evaluations:
+            self.samples.append({"note": "no sample captured: the runs designated for sampling crashed or were dropped"})
         cov = {
             "evaluations": self.evaluations,
             "distinct_nontrivial": len(self.nontrivial_digests),
@@ -536,11 +538,20 @@ def run_forked(fn, check, seed, indices, cfg=None, jobs=None, deadline=None, set
             finally:
                 os._exit(code)
         os.close(w)
-        return {"pid": pid, "fd": r, "buf": b"", "todo": list(todo), "cur": None}
+        return {"pid": pid, "fd": r, "buf": b"", "todo": list(todo), "cur": None, "since": time.time(), "hung": False}
 
     workers = [spawn(s) for s in slices]
     while workers:
         rl, _, _ = select.select([wk["fd"] for wk in workers], [], [], 5.0)
+        now = time.time()
+        for wk in workers:
+            # a case stuck in C code cannot be interrupted by the in-process watchdog: kill the worker
+            if not wk["hung"] and now - wk["since"] > limit + 20:
+                wk["hung"] = True
+                try:
+                    os.kill(wk["pid"], signal.SIGKILL)
+                except OSError:
+                    pass
         for wk in list(workers):
             if wk["fd"] not in rl:
                 continue
@@ -552,11 +563,13 @@ def run_forked(fn, check, seed, indices, cfg=None, jobs=None, deadline=None, set
                     line = line.decode()
                     if line.startswith("S "):
                         wk["cur"] = int(line[2:])
+                        wk["since"] = time.time()
                     elif line.startswith("R "):
                         _, i, js = line.split(" ", 2)
                         results[int(i)] = json.loads(js)
                         wk["todo"].remove(int(i))
                         wk["cur"] = None
+                        wk["since"] = time.time()
                 continue
             # EOF: worker finished or died
             os.close(wk["fd"])
@@ -564,7 +577,7 @@ def run_forked(fn, check, seed, indices, cfg=None, jobs=None, deadline=None, set
             workers.remove(wk)
             if wk["cur"] is not None:
                 sig = os.WTERMSIG(status) if os.WIFSIGNALED(status) else None
-                results[wk["cur"]] = {"crash": sig if sig is not None else "exit %s" % os.WEXITSTATUS(status)}
+                results[wk["cur"]] = {"crash": ("hang (killed after %ds)" % (limit + 20)) if wk["hung"] else (sig if sig is not None else "exit %s" % os.WEXITSTATUS(status))}
                 wk["todo"].remove(wk["cur"])
                 if wk["todo"] and not (deadline and time.time() > deadline):
                     workers.append(spawn(wk["todo"]))
